@@ -223,6 +223,70 @@ def p_pack(a):
     return enc_output(a["out"], res, decode, scale)
 
 
+# ---------------------------------------------------------------- ILP: formulation capture
+def p_ilp_full(a):
+    """integer_programming.optimal called directly; mip.Model.optimize is wrapped to capture the formulation
+    (normal form of harness/props/c17.py), the solver's answer and, on request, to replace the reported status"""
+    import mip
+    ipm = mod("prtpy.partitioning.integer_programming")
+    items, valueof, decode = algo_items(a)
+    items = list(items)
+    cap = {}
+
+    def norm(e):
+        d = {}
+        for v, c in e.expr.items():
+            d[v.idx] = d.get(v.idx, 0.0) + c
+        return [sorted([i, float(c).hex()] for i, c in d.items() if abs(c) >= 1e-12), float(e.const).hex(), e.sense]
+
+    orig = mip.Model.optimize
+
+    def opt(self, *args, **kw):
+        if a.get("preprocess_off"):
+            self.preprocess = 0
+        cap["form"] = [len(self.vars), norm(self.objective)[:2], [norm(c.expr) for c in self.constrs],
+                       bool(self.sense == mip.MINIMIZE), all(v.var_type == mip.INTEGER and v.lb == 0 for v in self.vars)]
+        st = orig(self, *args, **kw)
+        cap["status"] = st.name
+        try:
+            cap["x"] = [None if v.x is None else (int(round(v.x)) if abs(v.x - round(v.x)) < 1e-6 else "frac:%r" % v.x) for v in self.vars]
+        except Exception:
+            cap["x"] = None
+        if a.get("force_status"):
+            return getattr(mip.OptimizationStatus, a["force_status"])
+        return st
+
+    kw = {"objective": objective(*a["objective"])}
+    if a.get("copies") is not None:
+        kw["copies"] = a["copies"]
+    if a.get("weights") is not None:
+        kw["weights"] = list(a["weights"])
+    if a.get("extras"):
+        ex = a["extras"]
+
+        def addc(sums):
+            out = []
+            for t, c in ex:
+                out.append(sums[0] == c if t == 0 else (sums[-1] <= c if t == 1 else sums[0] >= c))
+            return out
+        kw["additional_constraints"] = addc
+    keep = a.get("keep", True)
+    mip.Model.optimize = opt
+    res = {}
+    try:
+        with silence_fd1():
+            b = ipm.optimal(binner_of(keep, valueof), a["k"], items, **kw)
+        res["bins"] = enc_binsarray(b, keep, decode)
+    except CaseTimeout:
+        raise
+    except Exception as e:
+        res["exc"] = type(e).__name__
+    finally:
+        mip.Model.optimize = orig
+    res["cap"] = cap
+    return res
+
+
 # ---------------------------------------------------------------- counting clock
 class FakeTime:
     """time.perf_counter() replacement: the first call (start time) and the next n calls
@@ -502,7 +566,7 @@ def p_numitems(a):
 
 
 PORTS = {
-    "numitems": p_numitems,
+    "numitems": p_numitems, "ilp_full": p_ilp_full,
     "binner_ops": p_binner_ops,
     "partition": p_partition, "pack": p_pack, "cg_clock": p_cg_clock, "cbldm_clock": p_cbldm_clock,
     "cbldm_args": p_cbldm_args, "ckk_generator": p_ckk_generator, "algo_direct": p_algo_direct,
